@@ -6,6 +6,7 @@ import (
 	"fmt"
 	"sort"
 	"strings"
+	"time"
 
 	"github.com/pascaldekloe/mqtt"
 )
@@ -762,6 +763,9 @@ type monC11 struct {
 }
 
 func (m *monC11) Step(f *Flow) {
+	if f.S != nil && !f.S.dead && f.W.Steps%16 == 0 {
+		m.quitHonoured(f)
+	}
 	w := f.W
 	if m.done == nil {
 		m.done = map[int]bool{}
@@ -806,6 +810,25 @@ func (m *monC11) Step(f *Flow) {
 					}
 				}
 			}
+		}
+	}
+}
+
+// quitHonoured: a closed quit wakes its call at once (every wait of a request is
+// a select with quit in it). A call that has not moved for a long stretch of
+// steps after its quit was closed, and sits at no park point, waits somewhere
+// without looking at quit.
+func (m *monC11) quitHonoured(f *Flow) {
+	w := f.W
+	for _, r := range f.ActiveReqs {
+		// (one wait in lockWrite looks at quit only every 20 ms: judged in
+		// simulated time)
+		if r.QuitAt == 0 || r.Ret != 0 || r.Dead || w.Steps-r.QuitAt < 60 || f.S.Now()-r.quitTime < 2*time.Second || r.quitFlagged {
+			continue
+		}
+		if f.S.Releases[r.Task] == r.relAtQuit && !f.S.IsParked(r.Task) {
+			r.quitFlagged = true
+			w.Violate("C11", "quit-ignored", rkNames[r.Kind], "%s #%d: its quit was closed at step %d; %d steps and %v later the call has neither returned nor reached any scheduling point", rkNames[r.Kind], r.Idx, r.QuitAt, w.Steps-r.QuitAt, f.S.Now()-r.quitTime)
 		}
 	}
 }
